@@ -146,6 +146,55 @@ func runC09(c *Ctx, w *World, r *Report) {
 			}
 			return op == opLT, op == opGT
 		}
+		// the same comparison reached through its complement: a[i] != b[i] together with not a[i] < b[i] is a[i] > b[i]
+		elemRel := func(cd Cond) (op int, idxVN string, ok bool) {
+			bo, isBo := cd.V.(*ssa.BinOp)
+			if !isBo {
+				return 0, "", false
+			}
+			o, isCmp := tokOp(bo.Op)
+			if !isCmp {
+				return 0, "", false
+			}
+			if !cd.Pol {
+				o = negOp(o)
+			}
+			ca, ia, ok1 := asElemLoad(bo.X)
+			cb, ib, ok2 := asElemLoad(bo.Y)
+			if !ok1 || !ok2 || fa.VN(ia) != fa.VN(ib) || !isUnsigned(bo.X.Type()) {
+				return 0, "", false
+			}
+			if paramIndex(ca) == 1 && paramIndex(cb) == 0 {
+				o = flipOp(o)
+			} else if !(paramIndex(ca) == 0 && paramIndex(cb) == 1) {
+				return 0, "", false
+			}
+			return int(o), fa.VN(ia), true
+		}
+		impliedCmp := func(conds []Cond) (less, greater bool) {
+			ne, ge, le := map[string]bool{}, map[string]bool{}, map[string]bool{}
+			for _, cd := range conds {
+				if o, iv, ok := elemRel(cd); ok {
+					switch o {
+					case int(opNE):
+						ne[iv] = true
+					case int(opGE):
+						ge[iv] = true
+					case int(opLE):
+						le[iv] = true
+					}
+				}
+			}
+			for iv := range ne {
+				if ge[iv] {
+					greater = true
+				}
+				if le[iv] {
+					less = true
+				}
+			}
+			return
+		}
 		for _, ret := range returnsOf(fn) {
 			for _, leaf := range fa.leavesOf(ret.Results[0], ret.Block(), 0) {
 				k, isC := constInt64(stripConv(leaf.V))
@@ -160,6 +209,9 @@ func runC09(c *Ctx, w *World, r *Report) {
 					continue
 				}
 				okV := false
+				if l, g := impliedCmp(leaf.Conds); k == -1 && l || k == 1 && g {
+					okV = true
+				}
 				for _, cd := range leaf.Conds {
 					l, g := elemCmp(cd)
 					if k == -1 && l || k == 1 && g {
